@@ -735,7 +735,8 @@ Definition ex_base : utable := list_to_map [
   ("meter", UD (mkq 1 1) (u1 "[L]")); ("second", UD (mkq 1 1) (u1 "[T]")); ("gram", UD (mkq 1 1) (u1 "[M]"));
   ("inch", UD (mkq 127 5000) (u1 "meter")); ("foot", UD (mkq 12 1) (u1 "inch"));
   ("yard", UD (mkq 3 1) (u1 "foot")); ("minute", UD (mkq 60 1) (u1 "second"));
-  ("hertz", UD (mkq 1 1) [("second", mkq (-1) 1)]) ].
+  ("hertz", UD (mkq 1 1) [("second", mkq (-1) 1)]);
+  ("lap", UD (mkq 400 1) (u1 "meter")); ("laps", UD (mkq 2 1) (u1 "lap")) ].
 (** the second registry declares frequency as a base dimension *)
 Definition ex_base2 : utable := <["hertz" := UD (mkq 1 1) (u1 "[F]")]> ex_base.
 Definition ex_cfg : regcfg :=
@@ -755,6 +756,8 @@ Definition ex_objs : objs := list_to_map [
             [("yard", UD (mkq 2 1) (u1 "foot"))] false);
   ("rd", CO ∅ [RL (c1 "[M]") (c1 "[L]") (mkq 7 1) None (mkuc [("meter", mkq 1 1); ("gram", mkq (-1) 1)])]
             [("yard", UD (mkq 4 1) (u1 "foot")); ("foot", UD (mkq 2 1) (u1 "second")); ("minute", UD (mkq 20 1) (u1 "second"))] false);
+  (* "laps" is both a unit and the plural of "lap": [_redefine] trips its assertion *)
+  ("re", CO ∅ [] [("yard", UD (mkq 5 1) (u1 "foot")); ("laps", UD (mkq 3 1) (u1 "lap"))] false);
   ("rs", CO (list_to_map [("k", mkq 2 1)])
             [RL (c1 "[F]") (c1 "[L]") (mkq 1 1) (Some ("k", true)) (mkuc [("meter", mkq 1 1); ("hertz", mkq (-1) 1)])]
             [] false) ].
@@ -872,5 +875,6 @@ Lemma failed_activation_nonvacuous :
   let st := run repaired ex_cfg ex_st [OEnable ["rb"] ∅; OEnable ["ra"] ∅] in
   (step repaired ex_cfg st (OEnable ["rc"; "rd"] ∅)).2 = OFailed EValue ∧
   (step repaired ex_cfg st (OWithEnter ["nosuch"] ∅)).2 = OFailed EKey ∧
+  (step repaired ex_cfg st (OEnable ["re"] ∅)).2 = OFailed EAssert ∧
   active_names st.2 = ["ra"; "rb"].
 Proof. repeat split; vm_compute; reflexivity. Qed.
